@@ -4,4 +4,5 @@ import DcmVerif.Props.Source_content
 import DcmVerif.Props.C14_flt
 import DcmVerif.Props.C14_key
 import DcmVerif.Props.C14_ext
+import DcmVerif.Props.C14_chain
 /-! C14: the metadata filter removes exactly the keys it is told to. -/
